@@ -688,6 +688,7 @@ func writeEvidence(p Property, path, tier string, seed uint64, t *WorkerReport, 
 		"simulated_steps_total":              t.Steps,
 		"fault_kinds_fired":                  faults,
 		"probes":                             probes,
+		"fault_kinds_zero_note":              "a fault kind with count 0 could not arise on this tree: channel_replaced_* needs code that replaces the queue's channel (the repaired RemoveAll no longer does); clock_jumps are drawn only when the code under test reads the clock (the shipped code never does); close_while_sender_parked cannot happen because programs close only after their producers finished; rmw_split_preemptions needs a read-modify-write of a variable that two tasks touch; parser_died_with_tokens_in_flight needs a rejected input (C12)",
 		"distinct_happens_before_signatures": distinctHB,
 		"distinct_hb_measure":                "distinct (program, happens-before signature) pairs over all simulated runs of non-trivial cases; the signature hashes, per synchronisation object, the order in which tasks operated on it - schedules that differ only in the order of independent operations share one signature",
 		"distinct_measure":                   "distinct (program, schedule-trace) pairs among non-trivial cases; a trace id is the FNV-1a hash of the sequence of scheduling decisions (task, operation, object ordinal)",
